@@ -120,7 +120,7 @@ func rootOf(a ssa.Value) int {
 				// result of a call: fresh unless it is a lookup in shared memory (Get-like); treat as fresh
 				// except for method calls on a rooted receiver returning interior pointers
 				if cf := x.Call.StaticCallee(); cf != nil && cf.Signature.Recv() != nil && len(x.Call.Args) > 0 {
-					if _, isPtr := x.Type().Underlying().(*types.Pointer); isPtr {
+					if _, isPtr := x.Type().Underlying().(*types.Pointer); isPtr && !returnsFresh(cf, 0) {
 						a = x.Call.Args[0]
 						continue
 					}
@@ -738,3 +738,52 @@ var rR14pair = RuleRef{Name: "R14p", Doc: "lock pairing: every acquire is releas
 	c.Count("R14_functions_with_locks", n)
 	c.Min("R14_functions_with_locks", 60)
 }}
+
+// returnsFresh: every first result of fn is newly allocated inside fn (or by a callee for which the same holds).
+func returnsFresh(fn *ssa.Function, depth int) bool {
+	if fn == nil || fn.Blocks == nil || depth > 4 {
+		return false
+	}
+	var fresh func(v ssa.Value, seen map[ssa.Value]bool) bool
+	fresh = func(v ssa.Value, seen map[ssa.Value]bool) bool {
+		if seen[v] {
+			return true
+		}
+		seen[v] = true
+		switch x := v.(type) {
+		case *ssa.Alloc:
+			return x.Heap
+		case *ssa.Phi:
+			for _, e := range x.Edges {
+				if !fresh(e, seen) {
+					return false
+				}
+			}
+			return true
+		case *ssa.Call:
+			return returnsFresh(x.Call.StaticCallee(), depth+1)
+		case *ssa.UnOp:
+			if al, ok := x.X.(*ssa.Alloc); ok && x.Op == token.MUL {
+				for _, r := range *al.Referrers() {
+					if st, ok := r.(*ssa.Store); ok && st.Addr == al && !fresh(st.Val, seen) {
+						return false
+					}
+				}
+				return true
+			}
+		}
+		return false
+	}
+	any := false
+	for _, b := range fn.Blocks {
+		for _, in := range b.Instrs {
+			if ret, ok := in.(*ssa.Return); ok && len(ret.Results) >= 1 {
+				any = true
+				if !fresh(ret.Results[0], map[ssa.Value]bool{}) {
+					return false
+				}
+			}
+		}
+	}
+	return any
+}
